@@ -8,6 +8,10 @@ import CoCoVerif.Lemmas.AddrOther
 namespace CoCo.Asm
 open CoCo
 
+/-- (batch B2) the signed constant of the "other" operand of `label ± k`: a number written or defined with a minus
+sign counts negatively (shared by the PcrWidth* and Reloc* families) -/
+def signedK (k : Nat) (n : Bool) : Int := if n then -(k : Int) else k
+
 /-! ### `fixOne` in pieces -/
 
 def fixStep1 (ss : List Stmt) (s : Stmt) : Outcome Stmt :=
@@ -38,10 +42,21 @@ def pcrJump (s2 : Stmt) (r start : Nat) : Int :=
   let jump : Int := (jump + 0x8000) % 0x10000 - 0x8000
   if s2.pcrHint = 4 then jump % 0x10000 else jump
 
+/-- the signed 16-bit distance from the end of the statement to the target -/
+def pcrDist (s2 : Stmt) (r start : Nat) : Int :=
+  ((r : Int) - start - s2.pkg.size + 0x8000) % 0x10000 - 0x8000
+
+/-- the range check of the 8-bit form (only possible across a later ORG) -/
+def pcrOut (s2 : Stmt) (r start : Nat) : Prop :=
+  s2.pcrHint ≠ 4 ∧ (pcrDist s2 r start < -128 ∨ pcrDist s2 r start > 127)
+
+instance (s2 : Stmt) (r start : Nat) : Decidable (pcrOut s2 r start) := by unfold pcrOut; infer_instance
+
 def fixStep3 (ss : List Stmt) (i : Nat) (s2 : Stmt) : Outcome Stmt :=
   if s2.pkg.needsRes then
     match fixRel ss s2, addrIntOf ss i with
     | .ok r, some start =>
+      if pcrOut s2 r start then .diag else
       (match numericOfInt (pcrJump s2 r start) (some s2.pcrHint) .none with
        | .ok v => .ok { s2 with pkg := { s2.pkg with additional := v } }
        | .error _ => .internal)
@@ -119,8 +134,10 @@ theorem fixStep3_out (ss : List Stmt) (i : Nat) (s : Stmt) : FixOut s (fixStep3 
   split
   · split
     · split
-      · right; right; exact ⟨_, rfl, _, rfl⟩
-      · right; left; rfl
+      · left; rfl
+      · split
+        · right; right; exact ⟨_, rfl, _, rfl⟩
+        · right; left; rfl
     · right; left; rfl
     · left; rfl
     · right; left; rfl
